@@ -1,5 +1,5 @@
 """C03 — Galerkin orthogonality (DESIGN 4.C03)."""
-from vlib.core import Check, GeneratorError
+from vlib.core import Check, GeneratorError, guarded
 from pyvc.driver import verify_contracts, ENGINE_ASSUMPTIONS
 from pyvc import arrays, extio
 from pyvc.engine import Ext
@@ -32,7 +32,7 @@ def run(tier, seed):
     smt.close_pool()
     try:
         from bounded import potential_rel
-        potential_rel.run(chk, "C03", tier, seed)
+        guarded(chk, 'bounded part potential_rel.run', potential_rel.run, chk, "C03", tier, seed)
     except ImportError:
         chk.notes.append("bounded part (potential_rel) not built yet")
     return chk.finish()
